@@ -117,7 +117,7 @@ def validation_vectors(stdout):
     problems = []
     for name in ROLL:
         r = rows.get(name, [])
-        if len(r) < 20:
+        if len(r) < 9:
             problems.append("native validation program printed only %d vectors for RollBy::%s" % (len(r), name))
         v["roll_" + name.lower()] = [(lab, {"secs": s, "nanos": n}, {"panic": p, "out": {} if p else {"millis": m}}) for lab, s, n, p, m in r]
         pairs = []
